@@ -852,6 +852,27 @@ def directed_cases(rng):
                 ("quadratic", "bindpairs")))
     out.append(("41-byte archive: 2000 files, NAME record of one byte", seal(b"\x01\x05" + num(2000) + b"\x11\x01\x00\x00\x00"), None,
                 ["getnames"], ("amplify", "names-at-eof")))
+    # controls: benign neighbours of the triggers above; an event on one of them is never a known shape
+    out.append(("control: 30 files, NAME record of one byte", seal(b"\x01\x05" + num(30) + b"\x11\x01\x00\x00\x00"), None, ["getnames"], None))
+    out.append(("control: 20000 declared files", seal(b"\x01\x05" + num(20000) + b"\x00\x00"), None, ["getnames", "list"], None))
+    out.append(("control: 10^5 pack streams without sizes", seal(b"\x01\x04\x06\x00" + num(10 ** 5) + b"\x00\x00\x00"), None,
+                ["getnames"], None))
+    out.append(("control: 10^5 declared sub-streams", seal(sub.replace(num(6 * 10 ** 7), num(10 ** 5))), None, ["getnames"], None))
+    n = 2500
+    out.append(("control: %d pack sizes of one byte" % n, seal(b"\x01\x04\x06\x00" + num(n) + b"\x09" + b"\x01" * n + b"\x00\x00\x00"),
+                None, ["getnames"], None))
+    n = 1200
+    fol = num(1) + bytes([0x11]) + b"\x00" + num(n + 1) + num(n + 1) + b"".join(num(1) + num(0) for _ in range(n))
+    out.append(("control: one folder with %d bind pairs" % n, seal(b"\x01\x04\x07\x0b\x01\x00" + fol + b"\x0c\x00"), None, ["getnames"], None))
+    T3 = [list(x) for x in T2]
+    for x in T3:
+        if x[0] == "pack.sizes.size":
+            x[2] = 40 * 2 ** 20
+    out.append(("control: pack size 40 MiB with a pack CRC: test()", seal(assemble(T3), packed), None, ["test"], None))
+    eh0 = (b"\x17\x06" + num(len(packed)) + b"\x01\x09" + num(len(h)) + b"\x00" + b"\x07\x0b\x01\x00" + b"\x01\x01\x00" + b"\x0c"
+           + num(len(h)) + b"\x00" + b"\x00")
+    out.append(("control: encoded header, Copy coder, exact size", seal(eh0, packed + h), None, ["getnames", "extractall"], None))
+    out.append(("control: valid copy archive, every call once", a, None, ["getnames", "list", "needs_password", "test", "testzip"], None))
     return out
 
 
@@ -1460,6 +1481,8 @@ def explore(ctx, rep, rng, tier, tmpdir, events):
                     done.append(op)
                     continue
             kind, via = classify(op, status, detail, done)
+            if m["origin"] == "valid" and (kind, via) != ("hang", "stale-decoder"):
+                via = "valid-archive:" + via      # an unmodified archive under a benign call: never a known shape
             stats["events"] += 1
             events[(kind, via)] = events.get((kind, via), 0) + 1
             if m["origin"] == "structure":
@@ -1467,7 +1490,7 @@ def explore(ctx, rep, rng, tier, tmpdir, events):
             what = "%s [%s]; call %s of %s on %s (%d bytes, %s) -> %s after %.2f s; frames: %s" % (
                 WHAT.get((kind, via), "unexplained resource event"), "%s/%s" % (kind, via), op, c["ops"], m["name"], m["len"], c["mode"],
                 status, secs, (detail.get("sites") if isinstance(detail, dict) else detail)[:4] if detail else detail)
-            if kind == "unknown" or kind == "crash":
+            if kind == "unknown" or kind == "crash" or via.startswith("valid-archive:"):
                 unknown_retry.append((c, m, (kind, via), what))
             elif (kind, via) not in first:
                 first[(kind, via)] = (c, m, what, status)
@@ -1488,7 +1511,9 @@ def explore(ctx, rep, rng, tier, tmpdir, events):
             rep.sample({"case": m["name"], "bytes": m["len"], "ops": c["ops"], "observed": got, "calls": [o[:2] + o[3:] for o in r["ops"]]},
                        limit=16)
             if exp is None and got is not None:
-                unknown_retry.append((c, m, got, "control case %s shows %s" % (m["name"], got)))
+                unknown_retry.append((c, m, (got[0], "control:" + m["name"][10:60]),
+                                      "control case (benign neighbour of a known trigger) %s shows %s/%s: %s" % (
+                                          m["name"], got[0], got[1], json.dumps(r["ops"])[:600])))
     rep.extra["calls"] = stats
     rep.extra["parser_model_prediction_vs_observation"] = pred_tab
 
